@@ -82,6 +82,13 @@ FOOTER_OVERS = [  # (perturbation, contradicts?)
     ({'marker_pad': b'\x01'}, True), ({'eos_val': 1}, True),
     ({'eos_size': 1}, True), ({'eos_type': 3}, True), ({'eos_pad': b'\x01'}, True),
 ]
+# relative perturbations of the footer's descriptor extent (for large descriptors)
+FOOTER_REL = [({}, False), ({'desc_num': '+1'}, True), ({'desc_num': '-1'}, True),
+              ({'desc_num': '+2048'}, True), ({'desc_sec': '+1'}, True)]
+# descriptors that fill their sectors exactly (no NUL padding at all): the last line
+FILL_LASTS = [('# end\n', 'safe'), ('# c', 'safe'), ('x', 'unsafe'), ('xy', 'unsafe'),
+              ('RW 16 FLAT "/etc/passwd" 0', 'unsafe'), ('\xe9', 'undecodable'),
+              ('createType="%s"', 'ctype-last')]
 PTE_KINDS = ['EMPTY', 'GPT', 'GPT_BADCHS', 'GPT_BADLBA', 'LINUX', 'NTFS']
 BOOT_FLAGS = [0x00, 0x80, 0x01, 0x7f]
 
@@ -122,7 +129,24 @@ def recipes(ctx):
                 for ci in (0, 3):
                     out.append(('vmdk', dict(ctype=ci, lines=(), base_extent=True,
                                              version=ver, footer=fi_, flags=flags)))
+    # large descriptors (at and beyond the 1 MiB - 1 clamp) x relative footer perturbations
+    for dn in (2047, 2048, 2049, 4096) if not full else (2046, 2047, 2048, 2049, 2050, 4096, 8192):
+        for fr in range(len(FOOTER_REL)):
+            out.append(('vmdk', dict(ctype=3, lines=(), base_extent=True, desc_num=dn, version=1,
+                                     footer_rel=fr)))
+    # descriptors that fill their sectors exactly
+    for dn in (1, 2, 3):
+        for ci in (0, 3, 6):
+            for fl in range(len(FILL_LASTS)):
+                for foot in (None, 0):
+                    out.append(('vmdk', dict(ctype=ci, lines=(), base_extent=True, desc_num=dn,
+                                             fill=fl, footer=foot)))
     # ---- MBR / GPT -----------------------------------------------------------------
+    # every value of every byte of a partition entry (protective entry alone; Linux entry alone)
+    for base in ('GPT', 'LINUX'):
+        for j in range(16):
+            for v in range(256):
+                out.append(('mbr_sweep', dict(base=base, byte=j, val=v)))
     max_nd = 2 if full else 1
     for kinds in itertools.product(range(len(PTE_KINDS)), repeat=4):
         for flags in itertools.product(range(len(BOOT_FLAGS)), repeat=4):
@@ -166,6 +190,28 @@ def build(kind, kw, seed):
             over['version'] = kw.get('version', 1) % 3 + 1
         desc_num = kw.get('desc_num', 2)
         desc_sec = kw.get('desc_sec', 1)
+        if 'footer_rel' in kw:
+            foot = 0
+            over, contradicts = FOOTER_REL[kw['footer_rel']]
+            over = {k: {'desc_num': desc_num, 'desc_sec': desc_sec}[k] + int(v) for k, v in over.items()}
+        fill_class = None
+        if 'fill' in kw:
+            last, fill_class = FILL_LASTS[kw['fill']]
+            if fill_class == 'ctype-last':
+                desc = B.vmdk_descriptor(ctype=spelling, ctype_line='# (type at the end)')
+                last = last % spelling
+            total = desc_num * 512
+            lastb = last.encode('latin-1')
+            need = total - len(desc) - len(lastb)
+            if need < 0:
+                return None, 'vmdk', []
+            pad = b''
+            while need > 0:
+                k = min(need, 61)
+                pad += b'#' * (k - 1) + b'\n'
+                need -= k
+            desc = desc + pad + lastb
+            assert len(desc) == total and b'\x00' not in desc
         ver = kw.get('version', 1)
         head_flags = kw.get('flags', 3)
         im = B.vmdk(capacity_sectors=2048 + seed % 1000, version=ver, desc_sec=desc_sec,
@@ -197,6 +243,10 @@ def build(kind, kw, seed):
             unsafe.add('version')
         if contradicts:
             unsafe.add('footer')
+        if fill_class == 'unsafe':
+            unsafe.add('line')
+        if fill_class == 'undecodable':
+            unsafe.add('descriptor_missing')
         fits = desc_num * 512 >= len(desc)
         na = any(c == 'na' for _, c in lines)
         clean = (not unsafe and fits and not na and has_extent)
@@ -208,6 +258,16 @@ def build(kind, kw, seed):
         cuts = [4, 63, 64, 65, 511, 512, 513, 512 + len(desc), im.facts['desc_at'] + desc_num * 512,
                 len(im.data) - 1536, len(im.data) - 512]
         return im, 'vmdk', cuts
+    if kind == 'mbr_sweep':
+        import struct
+        p = dict(getattr(B, 'PTE_' + kw['base']))
+        raw = bytearray(struct.pack('<B3BB3BII', p['boot'], *p['start'], p['ostype'], *p['end'],
+                                    p['lba'], p['size']))
+        raw[kw['byte']] = kw['val']
+        f = struct.unpack('<B3BB3BII', bytes(raw))
+        pte = dict(boot=f[0], start=tuple(f[1:4]), ostype=f[4], end=tuple(f[5:8]), lba=f[8], size=f[9])
+        im = B.mbr([pte], length=1024, boot_code=B.filler(seed, 14, 3))
+        return im, 'gpt', [446, 511]
     if kind == 'mbr':
         ptes = []
         for k, f in zip(kw['kinds'], kw['flags']):
